@@ -457,6 +457,23 @@ func (d *doc) sign() string {
 	if vr.CamliSigner != d.id.Ref {
 		return fmt.Sprintf("CamliSigner = %v, want %v", vr.CamliSigner, d.id.Ref)
 	}
+	// the same object through schema.Signer, the path every server component, importer and client uses
+	ssig, err := d.id.SchemaSigner()
+	if err != nil {
+		panic("harness: schema.NewSigner: " + err.Error())
+	}
+	s2, err := ssig.SignJSON(ctxbg, d.Unsigned, time.Unix(d.SigTime, 0))
+	if err != nil {
+		return fmt.Sprintf("schema.Signer.SignJSON refused a valid unsigned object that jsonsign signs: %v", err)
+	}
+	if j := strings.LastIndex(s2, sep); j < 0 || s2[:j] != d.payload {
+		return fmt.Sprintf("schema.Signer.SignJSON signed another payload than jsonsign for the same object: %q", s2)
+	}
+	vr2 := jsonsign.NewVerificationRequest(s2, vsign.KeyFetcher())
+	if _, err := vr2.Verify(ctxbg); err != nil {
+		return fmt.Sprintf("document signed through schema.Signer does not verify: %v", err)
+	}
+	evid.R.Label("documents/also-signed-through-schema.Signer")
 	return ""
 }
 
